@@ -17,7 +17,7 @@ DRIVER = 'C12'
 REQUIRED = [
     'Ems.C12.floor_index_spec', 'Ems.C12.floor_index_none', 'Ems.C12.floor_index_valid_only',
     'Ems.C12.column_floor_spec', 'Ems.C12.floor_spec', 'Ems.C12.other_vars_untouched',
-    'Ems.C12.depth_removed',
+    'Ems.C12.depth_removed', 'Ems.C12.ocean_floor_succeeds', 'Ems.C12.keep_bounds_breaks_ocean_floor',
 ]
 RULE = ('(a) every floor shape of a 2x3 column grid with 2 layers (3^6 = 729 wet-layer assignments, each column '
         '0..all layers wet) is enumerated, spread over datasets of the four conventions with a 2x3 face grid; each '
@@ -308,6 +308,19 @@ def build_extended(recipe) -> D.DBuilt:
     return db
 
 
+def minimal_recipes():
+    """smallest inputs of the classes that matter, run first so that a recorded failure is small:
+    one positive-down coordinate with / without a bounds variable stored after / before the data"""
+    for bounds, last in ((None, False), ('var', False), ('var', True)):
+        base = {'conv': 'cf1d', 'lat': [0, 2], 'lon': [0, 2], 'ydim': 'lat', 'xdim': 'lon', 'latname': 'lat',
+                'lonname': 'lon', 'bounds': 'none', 'coords_as': 'coords', 'bounds_as': 'vars'}
+        coord = {'name': 'depth', 'values': [1, 3], 'positive': 'down', 'as': 'coord', 'bounds': bounds}
+        spec = {'time': None, 'axes': [{'dim': 'depth', 'n': 2, 'coords': [coord]}], 'bounds_last': last,
+                'vars': [{'name': 'temp', 'kind': 'face', 'axis': 'depth', 'time': False, 'order': None,
+                          'base': 1000, 'wet': [2, 2, 2, 1]}]}
+        yield {'base': base, 'depth': spec}
+
+
 def shape_nontrivial(wet, n) -> bool:
     return any(0 < w < n for w in wet)
 
@@ -332,6 +345,13 @@ def run(ctx) -> None:
             else:
                 ctx.oracle_fail('ocean-floor-raised', desc, f'ocean_floor raised on a well-formed dataset: {err}')
         line = floor_line(db, kb, names, ns, order)
+        if not valid and order is not None and len(set(order)) > 1 and ctx.driver is not None:
+            # outside the hypotheses (e.g. two depth dimensions on one variable) the result may depend on
+            # the arbitrary visiting order; such a case says nothing about the code and is skipped
+            alts = ctx.model([floor_line(db, kb, names, ns, list(p)) for p in itertools.permutations(order)])
+            if len(set(alts)) > 1:
+                ctx.count('extended:order-dependent-skipped')
+                return
         desc['op'] = line
         items.append((line, impl, desc))
         ctx.count(f'{stream}:{db.conv}')
@@ -340,6 +360,11 @@ def run(ctx) -> None:
             ctx.evaluated()
             oracle(ctx, db, names, out, snap_in, snapshot(db.ds), desc)
         ctx.nontrivial(key)
+
+    # (0) fixed minimal inputs
+    for k, recipe in enumerate(minimal_recipes()):
+        db = D.build(recipe)
+        one(db, D.discovery(db), [], 'function', 'minimal', True, ('minimal', k))
 
     # (a) all floor shapes of a 2x3 grid with 2 layers
     n_shapes = 0
